@@ -90,7 +90,7 @@ static unsigned run_watchdog_s() {
 	return v ? v : 120;
 }
 
-Isolated run_isolated(const Plan &p) {
+Isolated run_isolated(const Plan &p, bool trace) {
 	Isolated r;
 	Engine *e = engine_by_name(p.engine);
 	if (!e) { r.crashed = true; return r; }
@@ -107,9 +107,10 @@ Isolated run_isolated(const Plan &p) {
 		if (efd >= 0) { dup2(efd, 2); }
 		FILE *f = fopen(outp, "w");
 		alarm(run_watchdog_s()); // a run that makes no simulated progress at all (a loop without system calls) ends as a crash
-		RunResult rr = e->execute(p, false);
+		RunResult rr = e->execute(p, trace);
 		alarm(0);
 		fprintf(f, "H %llx %d\n", (unsigned long long)rr.hash, rr.inconclusive ? 1 : 0);
+		for (auto &l : rr.log) fprintf(f, "L %s\n", l.c_str());
 		for (auto &v : rr.violations) fprintf(f, "V %s\n", ser_viol(v).c_str());
 		fclose(f);
 		_exit(0);
@@ -128,6 +129,7 @@ Isolated run_isolated(const Plan &p) {
 			pos = nl + 1;
 			if (line.size() > 2 && line[0] == 'H') { unsigned long long h; int inc; if (sscanf(line.c_str() + 2, "%llx %d", &h, &inc) == 2) { r.hash = h; r.inconclusive = inc; } }
 			else if (line.size() > 2 && line[0] == 'V') { sim::Violation v; if (de_viol(line.substr(2), v)) r.violations.push_back(v); }
+			else if (line.size() >= 2 && line[0] == 'L') r.log.push_back(line.substr(2));
 		}
 	}
 	std::string err;
@@ -455,7 +457,8 @@ static void handle_violation(const Job &job, int tier, uint64_t base, uint64_t i
 		v.key = key;
 		v.detail = a.signal == SIGALRM ? "the run made no progress for the watchdog time (a loop without system calls); the process was terminated" : "process aborted while executing the plan (sanitizer report or crash)";
 	} else {
-		RunResult r1 = e->execute(p, false), r2 = e->execute(p, false);
+		Isolated r1 = run_isolated(p), r2 = run_isolated(p);
+		if (r1.crashed || r2.crashed) { handle_violation(job, tier, base, idx, v0, known, oc, true); return; }
 		bool has1 = false, has2 = false;
 		for (auto &x : r1.violations) if (same_class(x, v)) { has1 = true; v = x; }
 		for (auto &x : r2.violations) if (same_class(x, v)) has2 = true;
@@ -477,12 +480,12 @@ static void handle_violation(const Job &job, int tier, uint64_t base, uint64_t i
 	uint64_t execs = 0;
 	Plan m;
 	if (crash) m = minimise(p, e, [&](const Plan &c) { return run_isolated(c).crashed; }, 400, 120, &execs);
-	else m = minimise(p, e, [&](const Plan &c) { RunResult r = e->execute(c, false); for (auto &x : r.violations) if (same_class(x, v)) return true; return false; }, 4000, 90, &execs);
+	else m = minimise(p, e, [&](const Plan &c) { Isolated r = run_isolated(c); for (auto &x : r.violations) if (same_class(x, v)) return true; return false; }, 4000, 90, &execs);
 	std::vector<std::string> log;
 	uint64_t mh = 0;
 	sim::Violation mv = v;
 	if (!crash) {
-		RunResult r = e->execute(m, true);
+		Isolated r = run_isolated(m, true);
 		log = r.log; mh = r.hash;
 		for (auto &x : r.violations) if (same_class(x, v)) { mv = x; break; }
 	}
@@ -577,8 +580,9 @@ int cmd_check(const std::string &property, const std::string &tier_s) {
 			regress_total++;
 			bool back = false;
 			const js::Val *ex = rj.get("expected");
-			if (ex && ex->geti("crash")) back = run_isolated(rp).crashed;
-			else { RunResult rr = re->execute(rp, false); for (auto &v : rr.violations) if (v.property == rj.gets("property") && v.rule == rj.gets("rule")) back = true; }
+			Isolated ir = run_isolated(rp);
+			if (ex && ex->geti("crash")) back = ir.crashed;
+			else { back = ir.crashed; for (auto &v : ir.violations) if (v.property == rj.gets("property") && v.rule == rj.gets("rule")) back = true; }
 			if (back) { regress_back++; regress_lines.push_back("VIOLATION property=" + rj.gets("property") + " replay=" + path); regress_lines.push_back("  a defect that was repaired (" + e.gets("commit") + ") is back: " + e.gets("what")); }
 		}
 	}
